@@ -5,8 +5,8 @@
    The text is
 
        <empty line>
-       - Snapshot <dpad>- <deleted>
-       + Received <ipad>+ <inserted>
+       - <label> <dpad>- <deleted>       (go-snaps: <label> = "Snapshot")
+       + <label> <ipad>+ <inserted>      (go-snaps: <label> = "Received")
        <empty line>
        <body>
        <empty line>
@@ -17,6 +17,11 @@
        "- " <text>  "\n"           line of the stored text
        "+ " <text>  "\n"           line of the received text
        "@@ -<range> +<range> @@" "\n" "\n"      hunk header, followed by an empty line
+
+   The two labels are WORDING and the paddings <dpad>, <ipad> are ALIGNMENT: the reader accepts any
+   label (a non-empty run of bytes other than space and newline) and any positive number of spaces
+   behind it, compares them with nothing and returns neither.  What it reads of a count line is
+   the mark ("-" first, "+" second) and the number.
 
    The reader uses NO printing function of Model/Report.v: of that file it only uses the type
    [rline] of its answer.  The numeral and prefix helpers ([parse_dec], [strip_prefix],
@@ -31,8 +36,8 @@ From Snaps Require Import Model.Summary.
 
 (* what a reader sees *)
 Record report_read := {
-  rr_del_count : nat;                 (* the number printed on the "- Snapshot" line *)
-  rr_ins_count : nat;                 (* the number printed on the "+ Received" line *)
+  rr_del_count : nat;                 (* the number printed on the first ("-") count line *)
+  rr_ins_count : nat;                 (* the number printed on the second ("+") count line *)
   rr_lines : list rline;              (* the shown lines, in order, hunk headers included *)
   rr_footer : option (bytes * nat)    (* "at <name>:<line>"; no footer is printed for name = "" *)
 }.
@@ -48,32 +53,42 @@ Fixpoint drop_spaces (s : bytes) : nat * bytes :=
   | c :: r => if N.eqb c 32 then let '(n, t) := drop_spaces r in (S n, t) else (0, s)
   end.
 
-(* "<lead><pad><sign><numeral>"  ->  (length of pad, value, length of the numeral) *)
-Definition read_count_line (lead sign l : bytes) : option (nat * nat * nat) :=
-  match strip_prefix lead l with
-  | None => None
-  | Some r =>
-      let '(p, r1) := drop_spaces r in
-      match strip_prefix sign r1 with
-      | None => None
-      | Some ds => match parse_dec ds with
-                   | Some n => Some (p, n, List.length ds)
-                   | None => None
-                   end
-      end
-  end.
-
-(* the numerals are right-aligned by padding the shorter one only *)
-Definition aligned (pd wd pi wi : nat) : bool :=
-  Nat.eqb (pd + wd) (pi + wi) && (Nat.eqb pd 0 || Nat.eqb pi 0).
-
-(* ---------- body lines ---------- *)
-
 Fixpoint span_while (p : N -> bool) (s : bytes) : bytes * bytes :=
   match s with
   | [] => ([], [])
   | c :: r => if p c then let '(a, b) := span_while p r in (c :: a, b) else ([], s)
   end.
+
+(* a label is a non-empty run of bytes other than the space and the newline.  WHICH bytes is
+   wording ("Snapshot"/"Received" in go-snaps): the reader compares a label with nothing and does
+   not return it *)
+Definition is_label_char (c : N) : bool := negb (N.eqb c 32) && negb (N.eqb c 10).
+
+(* "<mark> <label><spaces><mark> <numeral>"  ->  the value of the numeral.
+   <mark> is one byte ("-" on the first count line, "+" on the second), <spaces> is one or more
+   spaces (how many is alignment, i.e. presentation), <numeral> is what [parse_dec] accepts (no
+   sign, no leading zero, nothing after it) *)
+Definition read_count_line (mark : N) (l : bytes) : option nat :=
+  match strip_prefix [mark; 32%N] l with
+  | None => None
+  | Some r =>
+      let '(lbl, r0) := span_while is_label_char r in
+      match lbl with
+      | [] => None
+      | _ :: _ =>
+          let '(p, r1) := drop_spaces r0 in
+          match p with
+          | 0 => None
+          | S _ =>
+              match strip_prefix [mark; 32%N] r1 with
+              | None => None
+              | Some ds => parse_dec ds
+              end
+          end
+      end
+  end.
+
+(* ---------- body lines ---------- *)
 
 Definition is_range_char (c : N) : bool := is_digit c || N.eqb c 44.
 
@@ -193,20 +208,17 @@ Definition read_footer (ls : list bytes) : option (option (bytes * nat)) :=
 Definition read_report (text : bytes) : option report_read :=
   match split_nl text with
   | [] :: h1 :: h2 :: [] :: rest =>
-      match read_count_line (B "- Snapshot ") (B "- ") h1,
-            read_count_line (B "+ Received ") (B "+ ") h2 with
-      | Some (pd, d, wd), Some (pi, i, wi) =>
-          if aligned pd wd pi wi then
-            match read_body_lines rest with
-            | Some (r :: rs, tail) =>          (* a report never has an empty body *)
-                match read_footer tail with
-                | Some f => Some {| rr_del_count := d; rr_ins_count := i;
-                                    rr_lines := r :: rs; rr_footer := f |}
-                | None => None
-                end
-            | _ => None
-            end
-          else None
+      match read_count_line 45%N h1, read_count_line 43%N h2 with     (* "-" and "+" *)
+      | Some d, Some i =>
+          match read_body_lines rest with
+          | Some (r :: rs, tail) =>          (* a report never has an empty body *)
+              match read_footer tail with
+              | Some f => Some {| rr_del_count := d; rr_ins_count := i;
+                                  rr_lines := r :: rs; rr_footer := f |}
+              | None => None
+              end
+          | _ => None
+          end
       | _, _ => None
       end
   | _ => None
